@@ -86,8 +86,8 @@ class GetInner(Contract):
         return cache_coherent(st, a.slice.z)
 
     def frame(self, eng, st, a):
-        for f in ("_inner", "top", "bot", "step", "width"):
-            st.heap.havoc_field(f)
+        # only the slice's cache slot changes; the SliceInner it may point to is a fresh object
+        st.heap.havoc_at("_inner", a.slice.z)
 
     def p_rel(self, eng, st0, st, a, res):
         z = a.slice.z
@@ -124,8 +124,7 @@ class SliceAttr(Contract):
         return cache_coherent(st, a.self.z)
 
     def frame(self, eng, st, a):
-        for f in ("_inner", "top", "bot", "step", "width"):
-            st.heap.havoc_field(f)
+        st.heap.havoc_at("_inner", a.self.z)
 
     def p_val(self, eng, st0, st, a, res):
         z = a.self.z
@@ -164,8 +163,7 @@ class ExportSlice(Contract):
         return cache_coherent(st, a.slize.z)
 
     def frame(self, eng, st, a):
-        for f in ("_inner", "top", "bot", "step", "width", "signal"):
-            st.heap.havoc_field(f)
+        st.heap.havoc_at("_inner", a.slize.z)
 
     def p_bits(self, eng, st0, st, a, res):
         sp = c_slice.SliceInnerContract.spec(st0, a)
